@@ -417,6 +417,115 @@ def _desugar_iter(w, j, bi, stack):
     return list(range(n0, len(j['blocks'])))
 
 
+# ---------------------------------------------------------------------------------------------
+# element-dropping iterator adaptors in front of a `for` loop, rewritten as the test they stand for (added for the benign twin of seed C14/4B):
+#   for x in inner.filter(p)      { body }   =>   loop { match inner.next() { None => break, Some(x) => if p(&x) { body } } }
+#   for y in inner.filter_map(f)  { body }   =>   loop { match inner.next() { None => break, Some(x) => match f(x) { Some(y) => body, None => {} } } }
+# The `next` call on the adaptor is replaced; the adaptor value itself is left in place (nothing else reads it).  Guards that the closure
+# establishes (eligibility of a directory entry) then dominate the loop body, and what the closure discards (`e.ok()`) is visible as a discard.
+# ---------------------------------------------------------------------------------------------
+ADAPTORS = {'std::iter::Iterator::filter': 'filter', 'std::iter::Iterator::filter_map': 'filter_map'}
+
+
+def _single_def(j, l):
+    """('rv', rvalue) | ('call', terminator) when local l has exactly one whole definition, else None"""
+    defs = []
+    for blk in j['blocks']:
+        if blk.get('cleanup'):
+            continue
+        for st in blk['stmts']:
+            if st['s'] == 'assign' and st['p']['l'] == l and not st['p']['proj']:
+                defs.append(('rv', st['rv']))
+        t = blk['term']
+        if t['t'] == 'call' and t['dest']['l'] == l and not t['dest']['proj']:
+            defs.append(('call', t))
+    return defs[0] if len(defs) == 1 else None
+
+
+def _desugar_adaptor_next(w, j, bi, stack):
+    blk = j['blocks'][bi]
+    t = blk['term']
+    cp = callee_path(t) or ''
+    if not cp.endswith('Iterator::next') or t.get('synthetic') or t['target'] is None or len(t['args']) != 1 or t['dest']['proj']:
+        return None
+    a0 = t['args'][0]
+    if a0.get('o') not in ('move', 'copy') or a0['p']['proj']:
+        return None
+    # the receiver is `&mut it`: find `it`, then walk back through moves / into_iter to the adaptor call
+    cur = a0['p']['l']
+    adaptor = None
+    for _ in range(10):
+        d = _single_def(j, cur)
+        if d is None:
+            return None
+        if d[0] == 'rv':
+            rv = d[1]
+            if rv.get('r') == 'ref' and (not rv['p']['proj'] or rv['p']['proj'] == [{'p': 'deref'}]):
+                cur = rv['p']['l']        # `&mut it`, or a reborrow `&mut *r` of such a reference
+                continue
+            if rv.get('r') == 'use' and rv['op'].get('o') in ('move', 'copy') and not rv['op']['p']['proj']:
+                cur = rv['op']['p']['l']
+                continue
+            return None
+        ct = d[1]
+        ccp = callee_path(ct) or ''
+        if ccp.endswith('IntoIterator::into_iter') and ct['args'] and ct['args'][0].get('o') in ('move', 'copy') and not ct['args'][0]['p']['proj']:
+            cur = ct['args'][0]['p']['l']
+            continue
+        if ccp in ADAPTORS and len(ct['args']) == 2:
+            adaptor = ct
+        break
+    if adaptor is None:
+        return None
+    kind = ADAPTORS[callee_path(adaptor)]
+    inner = adaptor['args'][0]
+    if inner.get('o') not in ('move', 'copy') or inner['p']['proj']:
+        return None
+    cb, cl = _closure_of_operand(w, j, adaptor['args'][1])
+    if cb is None or cb.id in stack or len(stack) >= 4 or cb.arg_count != 2:
+        return None
+    B = _Builder(j, t['span'], stack)
+    n0 = len(j['blocks'])
+    dest, target = t['dest'], t['target']
+    il = inner['p']['l']
+    ity = j['locals'][il]['ty']
+    pty = cb.j['locals'][2]['ty']
+    item_ty = pty['t'] if (kind == 'filter' and pty.get('k') == 'ref') else pty
+    dty = j['locals'][dest['l']]['ty']
+    dargs = (dty.get('args') or []) if isinstance(dty, dict) else []
+    nxt = B.local(_opt_ty(item_ty))
+    d = B.local({'k': 'int', 'n': 'isize', 's': 'isize'})
+    x = B.local(item_ty)
+    itref = B.local({'k': 'ref', 'mut': True, 't': ity, 's': '&mut %s' % ity.get('s', '?')})
+    # the loop header keeps calling `next` - on the inner iterator (so that it is still the header of one natural loop; a skipped element jumps back to it)
+    head = bi
+    test = B.block([B.assign(_pl(d), {'r': 'discr', 'p': _pl(nxt)})])
+    unreach = B.block()
+    none_b = B.block([B.assign(copy.deepcopy(dest), _variant_agg(OPT, 'neg', [], dargs))], B.goto(target))
+    bind = B.assign(_pl(x), _use(_payload(nxt, OPT, 'pos', item_ty)))
+    if kind == 'filter':
+        verdict = B.local({'k': 'bool', 's': 'bool'})
+        found = B.block([B.assign(copy.deepcopy(dest), _variant_agg(OPT, 'pos', [_mv(x)], dargs))], B.goto(target))
+        after = B.block([], {'t': 'switch', 'discr': _mv(verdict), 'discr_ty': 'bool', 'targets': [[0, head]], 'otherwise': found, 'span': t['span']})
+        entry, new = _expand_closure(w, B, cb, cl, [{'r': 'ref', 'mut': False, 'p': _pl(x)}], _pl(verdict), after, stack)
+    else:
+        res = B.local(dty)
+        dr = B.local({'k': 'int', 'n': 'isize', 's': 'isize'})
+        found = B.block([B.assign(copy.deepcopy(dest), _use(_mv(res)))], B.goto(target))
+        after = B.block([B.assign(_pl(dr), {'r': 'discr', 'p': _pl(res)})],
+                        {'t': 'switch', 'discr': _mv(dr), 'discr_ty': 'isize', 'targets': [[0, head], [1, found]], 'otherwise': unreach, 'span': t['span']})
+        entry, new = _expand_closure(w, B, cb, cl, [_use(_mv(x))], _pl(res), after, stack)
+    j['blocks'][entry]['stmts'].insert(0, bind)
+    j['blocks'][test]['term'] = {'t': 'switch', 'discr': _mv(d), 'discr_ty': 'isize', 'targets': [[0, none_b], [1, entry]], 'otherwise': unreach, 'span': t['span']}
+    blk['stmts'].append(B.assign(_pl(itref), {'r': 'ref', 'mut': True, 'p': _pl(il)}))
+    blk['term'] = {'t': 'call', 'callee': copy.deepcopy(NEXT_CALLEE), 'args': [{'o': 'copy', 'p': _pl(itref)}], 'dest': _pl(nxt), 'target': test, 'span': t['span'],
+                   'fn_span': t.get('fn_span', t['span']), 'desugared': cp + ' over ' + kind, 'orig_dests': list(t.get('orig_dests', [])) + [dest['l']],
+                   'exhaust_blocks': list(t.get('exhaust_blocks', [])) + [test]}
+    if t.get('unwind') is not None:
+        blk['term']['unwind'] = t['unwind']
+    return [bi] + list(range(n0, len(j['blocks'])))      # (the header is looked at again: the inner iterator may be an adaptor as well)
+
+
 _DESUGARED = {}
 
 
@@ -429,7 +538,8 @@ def desugared(w, body):
     return _DESUGARED[key]
 
 
-def inline_body(w, body, pred, max_depth=3, max_blocks=1500, desugar=True):
+def inline_body(w, body, pred, max_depth=3, max_blocks=1500, desugar=True, adaptors=None):
+    adaptors = desugar if adaptors is None else adaptors
     j = copy.deepcopy(body.j)
     for blk in j['blocks']:
         blk.setdefault('inl', ())
@@ -446,6 +556,12 @@ def inline_body(w, body, pred, max_depth=3, max_blocks=1500, desugar=True):
             continue
         if desugar and len(j['blocks']) < max_blocks:
             new = _desugar(w, j, bi, blk['inl']) or _desugar_iter(w, j, bi, blk['inl'])
+            if new:
+                inlined.append('desugared:%s' % (callee_path(t) or ''))
+                work.extend(new)
+                continue
+        if adaptors and len(j['blocks']) < max_blocks:
+            new = _desugar_adaptor_next(w, j, bi, blk['inl'])
             if new:
                 inlined.append('desugared:%s' % (callee_path(t) or ''))
                 work.extend(new)
